@@ -52,6 +52,11 @@ pub enum Ty {
     U16,
     U8,
     Bool,
+    I8,
+    I16,
+    I32,
+    U32,
+    U64,
 }
 
 #[derive(Clone, Debug, Hash, Serialize, Deserialize, PartialEq)]
@@ -89,6 +94,14 @@ fn ty_of(a: &ArgSpec) -> Option<Ty> {
             ValParser::Path => Ty::Path,
             ValParser::I64 { .. } => Ty::I64,
             ValParser::U16 => Ty::U16,
+            ValParser::Int { w, .. } => match w {
+                IntW::I8 => Ty::I8,
+                IntW::I16 => Ty::I16,
+                IntW::I32 => Ty::I32,
+                IntW::U8 => Ty::U8,
+                IntW::U32 => Ty::U32,
+                IntW::U64 => Ty::U64,
+            },
             ValParser::Bool | ValParser::Boolish => Ty::Bool,
         }),
     }
@@ -109,7 +122,20 @@ fn canonical(a: &ArgSpec, ty: Ty, raw: &[u8]) -> Option<String> {
             s.filter(|t| dec_in_range(t, lo, hi)).map(own_decimal)
         }
         Ty::U16 => s.filter(|t| dec_in_range(t, 0, 65535)).map(own_decimal),
-        Ty::U8 => s.filter(|t| dec_in_range(t, 0, 255)).map(own_decimal),
+        Ty::I8 | Ty::I16 | Ty::I32 | Ty::U32 | Ty::U64 => {
+            let (lo, hi) = match &a.parser {
+                ValParser::Int { w, range } => w.language(*range),
+                _ => (i128::MIN, i128::MAX),
+            };
+            s.filter(|t| dec_in_range(t, lo, hi)).map(own_decimal)
+        }
+        Ty::U8 => {
+            let (lo, hi) = match &a.parser {
+                ValParser::Int { w, range } if a.action.takes_values() => w.language(*range),
+                _ => (0, 255),
+            };
+            s.filter(|t| dec_in_range(t, lo, hi)).map(own_decimal)
+        }
         Ty::Bool => match (&a.parser, a.action) {
             (ValParser::Boolish, Action::Set | Action::Append) => s.and_then(|t| {
                 let l = t.to_lowercase();
@@ -227,6 +253,11 @@ fn access(m: &mut ArgMatches, acc: Acc, id: &str, ty: Ty) -> Got {
             Ty::U16 => typed_access!(m, acc, id, u16),
             Ty::U8 => typed_access!(m, acc, id, u8),
             Ty::Bool => typed_access!(m, acc, id, bool),
+            Ty::I8 => typed_access!(m, acc, id, i8),
+            Ty::I16 => typed_access!(m, acc, id, i16),
+            Ty::I32 => typed_access!(m, acc, id, i32),
+            Ty::U32 => typed_access!(m, acc, id, u32),
+            Ty::U64 => typed_access!(m, acc, id, u64),
         },
     }
 }
@@ -295,7 +326,7 @@ impl Engine for AccessSim {
                     2 => IdSel::External,
                     _ => IdSel::Arg(rng.below(16) as u8),
                 },
-                ask: if rng.chance(2, 5) { Some(*rng.pick(&[Ty::Str, Ty::Os, Ty::Path, Ty::I64, Ty::U16, Ty::U8, Ty::Bool])) } else { None },
+                ask: if rng.chance(2, 5) { Some(*rng.pick(&[Ty::Str, Ty::Os, Ty::Path, Ty::I64, Ty::U16, Ty::U8, Ty::Bool, Ty::I32, Ty::U64])) } else { None },
                 cand: None,
             })
             .collect();
@@ -374,6 +405,17 @@ fn lang_candidate(rng: &mut Rng, a: &ArgSpec) -> B {
             }
         }
         ValParser::U16 => B::s(*rng.pick(&["0", "65535", "65536", "-0", "-1", "+7", "007", "", "1e2", " 1"])),
+        ValParser::Int { w, range } => {
+            let (tl, th) = w.limits();
+            let (lo, hi) = w.language(*range);
+            let n = *rng.pick(&[tl, th, tl - 1, th + 1, lo, hi, lo - 1, hi + 1, 0, -1, th + 256, tl - 256, (th + 1) * 2, 1i128 << 64, -(1i128 << 63) - 1]);
+            match rng.below(6) {
+                0 => B::s(&format!("+{n}")),
+                1 => B::s(&format!("0{n}")),
+                2 => B::s(*rng.pick(&["", "-", "1 ", "0x1", "1.0"])),
+                _ => B::s(&n.to_string()),
+            }
+        }
         ValParser::Bool => B::s(*rng.pick(&["true", "false", "TRUE", "True", "t", "f", "1", "0", "yes", "", " true"])),
         ValParser::Boolish => B::s(*rng.pick(&["y", "YES", "t", "True", "ON", "1", "n", "No", "F", "false", "oFF", "0", "2", "maybe", "", "on "])),
         ValParser::Possible(pvs) => {
